@@ -36,7 +36,11 @@ oracle: independent of the model — every record on the 'scrapli' logger tree a
         ones of the installed package — with EVERY secret-bearing argument, the user logging at debug / info / warning / error /
         critical (scenario field log_level); the construction is an operation of its own (model case OpConstruct: the record
         may carry the platform's own arguments, nothing of the user's), then the platform's on_open dialogue, a command /
-        hidden input, repr, close; what the factory refuses (missing / broken platform, unknown variant) is oracle-only."""
+        hidden input, repr, close; what the factory refuses (missing / broken platform, unknown variant) is oracle-only.
+        Family unencodable (oracle-only): the login password, key passphrase, enable / root-shell secret, hidden interactive
+        input is a str utf-8 cannot encode (lone surrogates: what os.environ / sys.argv give for non-utf-8 bytes); the
+        unchanged tree refuses it with the built-in UnicodeEncodeError (str() scanned; its args[1], the object python keeps
+        in every UnicodeError, is the one thing of the chain not scanned)."""
 import asyncio
 import copy
 import io
@@ -92,7 +96,18 @@ def encodings(s):
     """the ways a python str can show up in a record / message / repr / byte stream"""
     r = _ENC.get(s)
     if r is None:
-        out = {s, repr(s)[1:-1], repr(s.encode())[2:-1], s.replace("\\", "\\\\"), repr(repr(s))[2:-2]}
+        out = {s, repr(s)[1:-1], s.replace("\\", "\\\\"), repr(repr(s))[2:-2], ascii(s)[1:-1]}
+        # byte forms: the utf-8 bytes and, for a str utf-8 cannot encode (lone surrogates: what os.environ / sys.argv
+        # deliver for non-utf-8 bytes), every way python offers to get bytes out of it anyway; each as the repr of
+        # the bytes and as the bytes themselves read the way as_text reads a byte stream (latin-1)
+        for errors in ("strict", "surrogateescape", "surrogatepass", "backslashreplace", "replace", "ignore", "xmlcharrefreplace"):
+            try:
+                b = s.encode("utf-8", errors)
+            except UnicodeError:
+                continue
+            out |= {repr(b)[2:-1], b.decode("latin-1")}
+            if errors == "strict":
+                break
         out |= {e.lower() for e in out}
         if len(_ENC) > 20000:
             _ENC.clear()
@@ -344,7 +359,13 @@ def _exc_chain(e):
     chain, seen = [], set()
     while e is not None and id(e) not in seen:
         seen.add(id(e))
-        chain.append({"cls": _exc_name(e), "text": str(e) if isinstance(e, Exception) else "", "args": repr(getattr(e, "args", ""))})
+        args = getattr(e, "args", "")
+        if type(e).__module__ == "builtins" and isinstance(e, UnicodeError) and len(args) == 5:
+            # a built-in UnicodeEncodeError / UnicodeDecodeError keeps the object it failed on in args[1] (python's doing,
+            # its str() names one character / a position): the repr of a built-in exception is outside the property —
+            # its MESSAGE and the rest of its args are scanned like everything else
+            args = args[:1] + args[2:]
+        chain.append({"cls": _exc_name(e), "text": str(e) if isinstance(e, Exception) else "", "args": repr(args)})
         e = e.__cause__ or e.__context__
     return chain
 
@@ -1672,6 +1693,109 @@ def gen_shape(rng):
 
 
 # ------------------------------------------------------------------------------------------------
+# secrets utf-8 cannot encode (family unencodable): lone surrogates, what the os layer delivers for non-utf-8 bytes
+# ------------------------------------------------------------------------------------------------
+UNENC_KINDS = ["os-bytes", "os-bytes", "high-surrogate", "reversed-pair", "mixed"]
+# target -> (which credential of the scenario, its key in sc["secrets"])
+UNENC_TARGETS = {"password-telnet": "password", "password-telnet-pwonly": "password", "password-ssh": "password",
+                 "passphrase-ssh": "passphrase", "secondary-enable": "secondary", "secondary-junos-root": "secondary",
+                 "hidden-interact": "hidden", "hidden-interact-denied": "hidden"}
+
+
+def unencodable(rng, s, kind=None):
+    """`s` with characters inserted that str.encode() (utf-8, strict) refuses: lone LOW surrogates U+DC80..U+DCFF (what
+    os.environ / sys.argv / os.fsdecode give for bytes that are not utf-8: a latin-1 'é' in a password exported from a
+    non-utf-8 shell), lone HIGH surrogates (half of a pair cut by a UTF-16 tool), a pair in the wrong order; `mixed`:
+    next to characters utf-8 encodes to several bytes.  Never first / last (the device strips blanks, the canary's head
+    stays recognisable)."""
+    kind = kind or rng.choice(UNENC_KINDS)
+    if kind == "os-bytes":
+        ins = ["".join(chr(0xDC00 + rng.randrange(0x80, 0x100)) for _ in range(rng.choice([1, 1, 2, 3]))) for _ in range(rng.choice([1, 1, 2]))]
+    elif kind == "high-surrogate":
+        ins = [chr(rng.randrange(0xD800, 0xDC00))]
+    elif kind == "reversed-pair":
+        ins = [chr(rng.randrange(0xDC00, 0xE000)) + chr(rng.randrange(0xD800, 0xDC00))]
+    else:
+        ins = [rng.choice(["\u00e9", "\u20ac", "\U0001f511", "\u00ff"]), chr(0xDC00 + rng.randrange(0x80, 0x100)), rng.choice(META)]
+    for x in ins:
+        p = rng.randrange(1, len(s))
+        s = s[:p] + x + s[p:]
+    try:
+        s.encode()
+    except UnicodeEncodeError:
+        return s
+    raise AssertionError("unencodable(): %r is encodable" % (s,))
+
+
+def _subst(x, old, new):
+    if isinstance(x, str):
+        return new if x == old else x
+    if isinstance(x, list):
+        return [_subst(y, old, new) for y in x]
+    if isinstance(x, dict):
+        return {k: _subst(v, old, new) for k, v in x.items()}
+    return x
+
+
+def sc_unencodable(rng, target, stack, kind=None, level=None, others=False):
+    """one of the credential dialogues (in-channel telnet / ssh login password, key passphrase, enable / root-shell secret,
+    hidden interactive input) with the credential a str that utf-8 cannot encode.  What the unchanged tree does with it:
+    BaseChannel.write logs `write: REDACTED`, then channel_input.encode() raises the built-in UnicodeEncodeError (message:
+    one character and a position).  Oracle as everywhere; whatever the code does INSTEAD of failing (another codec, an
+    error handler, a wrapped exception, a record about the fallback) must not show the secret at any level.  The device
+    accepts the bytes `surrogateescape` would send (when the str has such bytes), so a tree that gets the write through
+    goes on with the dialogue.  `others`: the credentials the dialogue does not use are of the same kind."""
+    if target.startswith("password-telnet"):
+        sc = sc_login_telnet(rng, rng.choice(["generic", "cisco_iosxe", "cisco_nxos", "arista_eos"]), stack,
+                             "pwonly" if target.endswith("pwonly") else "good")
+    elif target == "password-ssh":
+        # whole reads: a fragment of the ssh client's prompt (`lab@`) looks like a device prompt to the generic pattern
+        # and ends the login before anything is asked — the credential would never be typed
+        sc = sc_login_ssh(rng, stack, "good", policy=["whole"])
+    elif target == "passphrase-ssh":
+        sc = sc_login_ssh(rng, stack, "phrase-good", policy=["whole"])
+    elif target == "secondary-enable":
+        sc = sc_escalate(rng, rng.choice(ENABLE_PLATFORMS), stack, "good")
+    elif target == "secondary-junos-root":
+        sc = sc_junos_root(rng, stack, "good")
+    elif target.startswith("hidden-interact"):
+        sc = sc_interact(rng, stack, "denied" if target.endswith("denied") else "good", rng.random() < 0.5)
+    else:
+        raise ValueError("unknown target %r" % (target,))
+    olds = [sc["secrets"][UNENC_TARGETS[target]]]
+    if others:
+        olds += [v for k, v in sorted(sc["driver_kwargs"].items()) if k in CREDENTIAL_KWARGS and v and v not in olds]
+    news = []
+    for old in olds:
+        new = unencodable(rng, old, kind)
+        news.append(new)
+        sc = _subst(sc, old, new)
+    for k in ("password", "passphrase", "enable_secret"):
+        if sc["device"].get(k) in news:
+            # the device compares bytes (read as latin-1): the ones surrogateescape gives, when there are such
+            try:
+                sc["device"][k] = sc["device"][k].encode("utf-8", "surrogateescape").decode("latin-1")
+            except UnicodeEncodeError:
+                sc["device"][k] = canary(rng, "X", 0)
+    sc.update(family="unencodable", mode="%s %s" % (target, kind or "any"), unencodable=target,
+              log_level=level or rng.choice(["debug", "debug", "info", "warning"]))
+    return sc
+
+
+def corpus_unencodable(rng):
+    out = []
+    for i, target in enumerate(sorted(UNENC_TARGETS)):
+        out.append(sc_unencodable(rng, target, "sync", "os-bytes", "debug"))
+        out.append(sc_unencodable(rng, target, "async", UNENC_KINDS[1 + i % 4], ["warning", "debug", "info"][i % 3], others=(i % 2 == 0)))
+    return out
+
+
+def gen_unencodable(rng):
+    return sc_unencodable(rng, rng.choice(sorted(UNENC_TARGETS)), rng.choice(["sync", "sync", "async"]), rng.choice(UNENC_KINDS),
+                          others=rng.random() < 0.3)
+
+
+# ------------------------------------------------------------------------------------------------
 # drivers created through the factory (family factory): core and scrapli_community platforms, every log level
 # ------------------------------------------------------------------------------------------------
 FACTORY_LEVELS = ["debug", "info", "warning", "error", "critical"]
@@ -1924,6 +2048,13 @@ def gen_malformed(rng):
 
 
 # ------------------------------------------------------------------------------------------------
+def isinstance_name(cls_name):
+    """is the exception class (by name, as recorded in the chain) one of python's Unicode errors?"""
+    import builtins
+    c = getattr(builtins, cls_name, None)
+    return isinstance(c, type) and issubclass(c, UnicodeError)
+
+
 def items_of(sc):
     secrets = [v for v in [sc["secrets"].get(k) for k in sorted(sc["secrets"])] if v]
     # credentials configured on the driver but never used in the scenario are secrets too
@@ -2011,6 +2142,9 @@ def run(rep):
     # drivers created through the factory (core + scrapli_community platforms, every log level): own stream (derived last)
     frng = random.Random(xrng.getrandbits(64))
     scenarios += corpus_factory(frng) + [gen_factory(frng) for _ in range(400 if thorough else 12)]
+    # credentials utf-8 cannot encode (lone surrogates): own stream (derived last)
+    urng = random.Random(frng.getrandbits(64))
+    scenarios += corpus_unencodable(urng) + [gen_unencodable(urng) for _ in range(300 if thorough else 10)]
     # replays of listed findings run first
     for f in rep.findings:
         p = os.path.join(common.VERIF, f.get("replay", ""))
@@ -2023,7 +2157,7 @@ def run(rep):
             "secret_len": {}, "metachar_secrets": 0, "writes_redacted": 0, "writes_shown": 0, "flag_hits": {},
             "responses": {}, "response_probes": {}, "write_faults": {}, "real_transport": {}, "library_auth": {},
             "transport_options": {}, "driver_repr_at": {}, "reassigned": {}, "rotate": {}, "event_shapes": {},
-            "factory": {}, "factory_records": {}, "log_level": {}}
+            "factory": {}, "factory_records": {}, "log_level": {}, "unencodable": {}}
     terms, term_src = [], []
     resp_terms = set()
     nviol = 0
@@ -2083,6 +2217,21 @@ def run(rep):
             if not failed and lvl in ("debug", "info") and not obs.get("construct_records") and not sc.get("finding"):
                 # nothing the construction logs reached the observers although the level lets INFO through: blind, fail closed
                 rep.broken.append("harness: factory scenario %d (%s): no record of the construction observed at level %s" % (si, sc["mode"], lvl))
+        if sc["family"] == "unencodable":
+            # what the code did with the credential: refused it (which exception, where) or typed it (as which bytes)
+            secs_u = [v for v in all_secrets(sc).values() if v]
+            refused = [e["chain"][0]["cls"] + "@" + e["where"] for e in obs["exceptions"] if any(isinstance_name(c["cls"]) for c in e["chain"])]
+            typed = any(any(occurs(v, as_text(e[1])) for v in secs_u) for e in obs["events"] if e[0] == "twrite")
+            # refused where: by write() itself (its REDACTED record is there; DEBUG only) or before it (send_inputs_interact
+            # encodes every input before it writes)
+            redacted = sum(1 for e in obs["events"] if e[0] == "log" and e[3] == "write: REDACTED")
+            key = "%s %s %s -> %s" % (sc["mode"], sc["stack"], lvl, "typed" if typed else
+                                      (",".join(refused) + (" in write" if redacted else "")) or "NOT REACHED")
+            dist["unencodable"][key] = dist["unencodable"].get(key, 0) + 1
+            if not typed and not refused and not sc.get("finding"):
+                # the credential neither reached a write nor was refused as unencodable: the scenario is blind, fail closed
+                rep.broken.append("harness: unencodable scenario %d (%s %s %s): the credential never reached a channel write" % (
+                    si, sc["mode"], sc["kind"], sc["stack"]))
         if sc["family"] == "shape":
             # what the code did with the shape (against what the unchanged tree does with it)
             excs = [e["chain"][0]["cls"] for e in obs["exceptions"] if e["where"] == "send_interactive"]
@@ -2208,7 +2357,10 @@ def run(rep):
                 "FACTORY (Scrapli / AsyncScrapli) with every secret-bearing argument: the five core platforms and scrapli_community "
                 "platforms (synthetic ones registered in sys.modules — network / generic / own driver classes, each variant — and "
                 "those of the installed package), the construction alone and followed by the platform's on_open dialogue, the user "
-                "logging at debug / info / warning / error / critical; missing / broken platform definitions, unknown variant) + seeded scenarios + "
+                "logging at debug / info / warning / error / critical; missing / broken platform definitions, unknown variant; "
+                "credentials utf-8 cannot encode — lone low / high surrogates, reversed pairs, next to multi-byte characters — as telnet / "
+                "ssh login password, key passphrase, enable / junos root-shell secret, hidden interactive input, sync and asyncio, the "
+                "user logging at debug / info / warning) + seeded scenarios + "
                 "a malformed stream (all-metacharacter / very long / format-looking secrets, truthy non-bool hidden flag); "
                 "every Response / MultiResponse handed to the user is probed with str(), raise_for_status() and (no hidden input) repr(); "
                 "every repr()/str() of a driver is one model case (OpRepr / OpStr of the configuration given at construction); "
@@ -2274,7 +2426,7 @@ def replay(path):
     print("secrets :", all_secrets(sc))
     print("observed:", json.dumps(summarize(obs)))
     for l in leaks[:12]:
-        print("LEAK  %-40s secret=%s  %s" % (l["where"], l["secret"], l["excerpt"][:160].replace("\n", "\\n")))
+        print("LEAK  %-40s secret=%s  %s" % (l["where"], l["secret"], ascii(l["excerpt"][:160])[1:-1]))
     print("property FAILS on this input" if leaks else "property holds on this input")
     return 1 if leaks else 0
 
@@ -2343,7 +2495,18 @@ MANIFEST = {
             "(debug, info, warning, error, critical: scenario field log_level, both file handlers and the record observer see "
             "what the 'scrapli' logger lets through); what the factory refuses (no such platform, no SCRAPLI_PLATFORM, no "
             "defaults, unknown variant, non-string platform) with the credentials in scope. The construction is a model case "
-            "(OpConstruct: one record with the platform's own arguments, nothing of the user's configuration, at any level).",
+            "(OpConstruct: one record with the platform's own arguments, nothing of the user's configuration, at any level). "
+            "Credentials that utf-8 CANNOT ENCODE (family unencodable): the telnet / ssh in-channel login password, the key "
+            "passphrase, the enable and junos root-shell secret and hidden interactive inputs (also the one the device refuses "
+            "three times) holding lone low surrogates U+DC80..U+DCFF (what os.environ / sys.argv / os.fsdecode deliver for bytes "
+            "that are not utf-8), a lone high surrogate, a pair in the wrong order, or one next to multi-byte characters and "
+            "metacharacters; sync and asyncio; the user logging at debug / info / warning; optionally the credentials the dialogue "
+            "does not use of the same kind. The device accepts the bytes surrogateescape would send, so a tree that gets such a "
+            "write through goes on with the dialogue. Every observer as everywhere (records at the user's level, both log files, "
+            "repr/str of driver / channel / transport, str() of the whole exception chain); a canary is recognised in str form, "
+            "as \\udcXX escapes (repr / ascii / backslashreplace), as the bytes surrogateescape / surrogatepass / replace / ignore / "
+            "xmlcharrefreplace produce (raw and as a bytes repr). The check fails closed when such a credential neither reaches "
+            "a write nor is refused with a UnicodeError.",
     "note": "Trusted: Coq kernel + vm_compute; the hand model coq/model/Secrets.v (tied to the code by running every channel operation "
             "of every scenario through the model on the history observed at the transport: same write records REDACTED-or-shown, reads, "
             "channel log, exception class; other records compared as sets of data items); gen/gen_sinks.py (identifier-level value flow "
@@ -2394,6 +2557,16 @@ MANIFEST = {
             "restored afterwards (fail-closed if the plugin no longer has these names); the library exceptions they raise carry the "
             "messages the real libraries use, never a credential. The loopback scenarios run the real paramiko / asyncssh clients "
             "against asyncssh servers on 127.0.0.1 (an echo shell, no device: authentication outcome, repr, close only). "
+            "ORACLE-ONLY as well: family unencodable — the model's secrets are atoms, it has no encoding step: on the unchanged "
+            "tree BaseChannel.write (logins; after its `write: REDACTED` record) resp. send_inputs_interact (hidden inputs and "
+            "_escalate; before any write) end with the BUILT-IN UnicodeEncodeError of str.encode(), an exception class outside "
+            "the model's (build_case gives no case for it), so only the operations before it, the driver repr/str and "
+            "construction cases of these scenarios reach the model. The property is about the messages of exceptions SCRAPLI "
+            "raises and about records / reprs: python keeps the object that failed to encode in args[1] of every UnicodeError, "
+            "so repr() of that built-in exception shows the credential on the unchanged tree — outside the property, and the "
+            "ONE thing the oracle leaves out (args[1] of a builtins UnicodeError with the standard five args; its str(), which "
+            "names one character and a position, the rest of its args, and every scrapli exception wrapping it — str and args "
+            "— are scanned). "
             "Known findings, kept out of "
             "the main exploration and replayed: repr(Response) and Response.textfsm_parse_output() of a send_interactive with a hidden "
             "input show it (Response.channel_input is the join of all event inputs); repr() is therefore only probed on responses "
